@@ -30,8 +30,7 @@ def enc(s):
             out.append(ch)
         else:
             code = ord(ch)
-            assert code < 256, repr(s)
-            out.append(f'~{code:02x}')
+            out.append(f'~{code:02x}' if code < 256 else f'~u{code:06x}')
     return ''.join(out)
 
 
@@ -378,16 +377,24 @@ class FileObj:
         self.recorder.events.append('close')
 
 
+RECORDERS = []      # every recording fetcher of the run: their whole logs go through the verified trace checker
+
+
 class Recorder:
     """The caller's url_fetcher: serves everything from memory, records every call."""
 
     def __init__(self, table):
         self.table = table
         self.events = []
+        self.history = []           # never cleared (take() empties `events`)
+        self.check_named = False    # document runs: every URL handed to the fetcher must be named by the document
+        self.extra_named = []
+        RECORDERS.append(self)
+        self.file_objects = []
         self.last_content = None
 
     def __call__(self, url, *args, **kwargs):
-        self.events.append(f'call={enc(url)}')
+        self.events.append(f'call={enc(str(url))}')      # svg <image> without href hands None to the fetcher
         spec = self.table.get(url)
         if spec is None:
             raise LookupError('unknown')
@@ -401,6 +408,7 @@ class Recorder:
             result['string'] = spec.content.data
         if spec.file_obj is not None:
             result['file_obj'] = FileObj(self, spec.content.data, *spec.file_obj)
+            self.file_objects.append(result['file_obj'])
         if spec.has_mime:
             result['mime_type'] = spec.mime
         if spec.redirected is not None:
@@ -415,8 +423,12 @@ class Recorder:
 
     def take(self):
         out = self.log()
+        self.history.extend(self.events)
         self.events = []
         return out
+
+    def whole_log(self):
+        return self.history + self.events
 
 
 EXCEPTIONS = [
@@ -502,6 +514,55 @@ def counting_saves():
         yield counter
     finally:
         Image.Image.save = original
+
+
+class HarnessTimeout(Exception):
+    """Raised inside the implementation when a single case runs longer than its time limit."""
+
+
+@contextlib.contextmanager
+def time_limit(seconds):
+    """Interrupt the implementation after `seconds` (main thread, SIGALRM): a regression that makes rendering loop must
+    show up as an outcome of the case, not as a hung check.  WeasyPrint swallows exceptions in places (`SVGImage.draw`
+    catches BaseException, logs, and goes on), so after the deadline (a) the alarm keeps firing every few milliseconds
+    while implementation code runs and (b) a filter on the `weasyprint` logger raises again from inside the `except`
+    blocks that log the swallowed exception: the stack is unwound level by level instead of being re-descended."""
+    import signal
+    import time
+    state = {'armed': True, 'deadline': time.monotonic() + seconds}
+    logger = logging.getLogger('weasyprint')
+
+    class Deadline(logging.Filter):
+        def filter(self, record):
+            if state['armed'] and time.monotonic() > state['deadline']:
+                raise HarnessTimeout(f'no result after {seconds} s')
+            return record.levelno >= level_before
+
+    def handler(signum, frame):
+        if not state['armed']:
+            return
+        filename = frame.f_code.co_filename if frame is not None else ''
+        if '/py/harness/' in filename or '/py/props/' in filename or '/py/vlib/' in filename or '/logging/' in filename:
+            return
+        raise HarnessTimeout(f'no result after {seconds} s')
+    if threading.current_thread() is not threading.main_thread():
+        yield state
+        return
+    level_before = logger.level or logging.WARNING
+    deadline_filter = Deadline()
+    logger.addFilter(deadline_filter)
+    if level_before > logging.ERROR:
+        logger.setLevel(logging.ERROR)
+    previous = signal.signal(signal.SIGALRM, handler)
+    signal.setitimer(signal.ITIMER_REAL, seconds, 0.003)
+    try:
+        yield state
+    finally:
+        state['armed'] = False
+        signal.setitimer(signal.ITIMER_REAL, 0)
+        signal.signal(signal.SIGALRM, previous)
+        logger.removeFilter(deadline_filter)
+        logger.setLevel(level_before)
 
 
 class Audit:
